@@ -426,6 +426,25 @@ class Run:
                 return qt.calc_prob_dists(get(st["obj"]))
             if name == "calc_prob_dist":
                 return qt.calc_prob_dist(get(st["obj"]), st["i"])
+            if name in ("get_coeffs_0th_vec", "get_coeffs_1st_mat", "num_outcomes"):
+                return getattr(qt, name)(st["i"])
+            if name in ("calc_covariance_mat_single", "calc_covariance_mat_total", "calc_covariance_linear_mat_total", "calc_mse_linear_analytical", "calc_mse_empi_dists_analytical",
+                        "calc_fisher_matrix", "calc_fisher_matrix_total", "calc_cramer_rao_bound", "generate_prob_dists_sequence"):
+                obj = get(st["obj"])
+                ns = list(st.get("ns") or [])
+                if name == "calc_covariance_mat_single":
+                    return qt.calc_covariance_mat_single(obj, st["i"], ns[0])
+                if name == "calc_mse_linear_analytical":
+                    return qt.calc_mse_linear_analytical(obj, ns, mode=st.get("mode", "qoperation"))
+                if name == "calc_fisher_matrix":
+                    return qt.calc_fisher_matrix(st["i"], obj)
+                if name == "calc_fisher_matrix_total":
+                    return qt.calc_fisher_matrix_total(obj, [float(n) for n in ns])
+                if name == "calc_cramer_rao_bound":
+                    return qt.calc_cramer_rao_bound(obj, sum(ns), ns)
+                if name == "generate_prob_dists_sequence":
+                    return qt.generate_prob_dists_sequence(obj)
+                return getattr(qt, name)(obj, ns)
             if name in ("generate_empi_dists_sequence", "generate_empi_dists", "generate_empi_dist"):
                 obj = get(st["obj"])
                 if name == "generate_empi_dists_sequence":
@@ -989,6 +1008,8 @@ class Generator:
         st = {"op": "m", "on": i, "name": name, "scribble": (not self.fault_free) and rng.random() < 0.2}
         if name == "convert_to_comp_basis" and rng.random() < 0.6:
             st["kwargs"] = {"mode": rng.choice(["row_major", "column_major"])}
+        if name == "calc_proj_physical" and rng.random() < 0.5:
+            st["kwargs"] = {"max_iteration": rng.choice([1, 3, 50]), "is_iteration_history": rng.random() < 0.5}
         return st
 
     def g_with_var(self):
@@ -1314,10 +1335,25 @@ class Generator:
             return None
         t = rng.choice(tomos)
         rec = self.pool[t]
+        ANALYTIC = ["calc_covariance_mat_single", "calc_covariance_mat_total", "calc_covariance_linear_mat_total", "calc_mse_linear_analytical", "calc_mse_empi_dists_analytical",
+                    "calc_fisher_matrix", "calc_fisher_matrix_total", "calc_cramer_rao_bound", "generate_prob_dists_sequence"]
         name = rng.choice(["calc_matA", "calc_vecB", "is_fullrank_matA", "num_variables", "generate_empty_estimation_obj_with_setting_info", "calc_prob_dists", "calc_prob_dists", "calc_prob_dist",
-                           "convert_var_to_qoperation", "generate_empi_dists_sequence", "generate_empi_dists", "generate_empi_dist"])
+                           "convert_var_to_qoperation", "generate_empi_dists_sequence", "generate_empi_dists", "generate_empi_dist", "get_coeffs_0th_vec", "get_coeffs_1st_mat", "num_outcomes"] + ANALYTIC)
         st = {"op": "tomo_m", "tomo": t, "name": name}
         kind = {"qst": "state", "povmt": "povm", "qpt": "gate", "qmpt": "mprocess"}[rec["type"]]
+        n_sched_all = {"qst": len(rec["testers"]), "povmt": len(rec["testers"]), "qpt": 12, "qmpt": 12}[rec["type"]]
+        if name in ("get_coeffs_0th_vec", "get_coeffs_1st_mat", "num_outcomes"):
+            st["i"] = rng.randrange(n_sched_all)
+            return st
+        if name in ANALYTIC:
+            cands = [i for i in self.ids(kind, 0) if (kind != "povm" or len(self.pool[i]["vecs"]) == 2) and (kind != "mprocess" or len(self.pool[i]["hss"]) == 2) and self.pool[i].get("name")]
+            if not cands:
+                return None
+            st["obj"] = rng.choice(cands)
+            st["ns"] = [rng.choice([10, 100, 1000]) for _ in range(n_sched_all)]
+            st["i"] = rng.randrange(n_sched_all)
+            st["mode"] = rng.choice(["qoperation", "var"])
+            return st
         if name in ("calc_prob_dists", "calc_prob_dist", "generate_empi_dists_sequence", "generate_empi_dists", "generate_empi_dist"):
             # data generation needs a physical unknown (probabilities); catalogue objects are
             phys = name.startswith("generate")
